@@ -524,13 +524,13 @@ theorem unquoteBoundary_plain (b : Bytes) (h : b.head? ≠ some 34) : unquoteBou
 
 /-- what `parse_multipart_form_data` does with an encoded form: the split is exact, so the result is the fold over
     the parts, unless the count is over the limit -/
-theorem parseMultipart_encoded_eq (cfg : Config) (b : Bytes) (parts : List Spec.Part)
+theorem parseMultipart_encoded_eq (cfg : Config) (b : Bytes) (parts : List Spec.Part) (f : Form)
     (hen : cfg.enabled = true) (hb : b.head? ≠ some 34) (h10 : 10 ∉ b)
     (hfresh : ∀ p ∈ parts, Spec.occurs (dashes ++ b) (Spec.contentOf Spec.dispositionQ p) = false) :
-    parseMultipart cfg b (Spec.encodeMultipart b parts) {} =
+    parseMultipart cfg b (Spec.encodeMultipart b parts) f =
       if parts.length > cfg.maxParts then .error .httpInput
       else (parts.map (Spec.contentOf Spec.dispositionQ)).foldlM
-        (fun acc p => if p.isEmpty then Except.ok acc else parsePart cfg p acc) {} := by
+        (fun acc p => if p.isEmpty then Except.ok acc else parsePart cfg p acc) f := by
   unfold parseMultipart
   have hlen : ([] :: parts.map (Spec.contentOf Spec.dispositionQ)).length - 1 = parts.length := by
     simp only [List.length_cons, List.length_map, Nat.add_sub_cancel]
@@ -548,7 +548,7 @@ theorem parseMultipart_encoded (cfg : Config) (b : Bytes) (parts : List Spec.Par
     (hfresh : ∀ p ∈ parts, Spec.occurs (dashes ++ b) (Spec.contentOf Spec.dispositionQ p) = false)
     (hok : PartsOK parts) (hsz : SizesOK cfg parts) :
     parseMultipart cfg b (Spec.encodeMultipart b parts) {} = .ok (Spec.expected parts) := by
-  rw [parseMultipart_encoded_eq cfg b parts hen hb h10 hfresh, if_neg (Nat.not_lt.mpr hcount)]
+  rw [parseMultipart_encoded_eq cfg b parts {} hen hb h10 hfresh, if_neg (Nat.not_lt.mpr hcount)]
   exact foldlM_contents cfg parts {} hok hsz
 
 /-! ### hypotheses of the lossless clause -/
@@ -629,7 +629,7 @@ theorem parseMultipart_single (cfg : Config) (b : Bytes) (p : Spec.Part) (hwf : 
     cases hc : Spec.contentOf Spec.dispositionQ p with
     | nil => exact absurd hc (content_ne_nil p)
     | cons a r => rfl
-  rw [parseMultipart_encoded_eq cfg b [p] hwf.enabled hwf.boundary_plain h10 hwf.fresh, if_neg hcount]
+  rw [parseMultipart_encoded_eq cfg b [p] {} hwf.enabled hwf.boundary_plain h10 hwf.fresh, if_neg hcount]
   simp only [List.map_cons, List.map_nil, List.foldlM_cons, List.foldlM_nil, hemp, Bool.false_eq_true, if_false,
     parsePart_content_gen cfg p {} (hwf.partOK0 p List.mem_cons_self), hsz]
   cases finishPart {} p (parseHeader (dispValue p.name p.filename)) <;> rfl
@@ -647,7 +647,7 @@ theorem parseMultipart_sendable_reject (cfg : Config) (b : Bytes) (parts : List 
     (hs : Sendable b parts)
     (hover : parts.length > cfg.maxParts ∨ ∃ p ∈ parts, headerSize p > cfg.maxPartHeaderSize) :
     parseMultipart cfg b (Spec.encodeMultipart b parts) {} = .error .httpInput := by
-  rw [parseMultipart_encoded_eq cfg b parts hen hs.boundary_plain hs.boundary_lf hs.fresh]
+  rw [parseMultipart_encoded_eq cfg b parts {} hen hs.boundary_plain hs.boundary_lf hs.fresh]
   by_cases hc : parts.length > cfg.maxParts
   · rw [if_pos hc]
   · rw [if_neg hc]
